@@ -33,7 +33,7 @@ NOT_DECIDED = ["text of mis-nested *removable* elements of different names (inhe
                "html.parser's own tokenisation (CDATA content mode of script/style, attribute parsing)"]
 TRUSTED = ["html.parser emits handle_starttag for every start tag, handle_endtag for every end tag, none for void elements' (absent) end tags, and handle_startendtag (default: start then end) for self-closing tags",
            "abstract interpreter sa/engine/objinterp.py"]
-FLOORS = {"C17-SKIP": 400, "C17-N4": 4, "C17-N5": 2, "C17-EOF": 3}
+FLOORS = {"C17-SKIP": 400, "C17-N4": 4, "C17-N5": 2, "C17-EOF": 3, "C17-FRESH": 3, "C17-TREE": 2}
 
 REMOVABLE = ["script", "style", "noscript", "iframe", "object", "embed", "applet"]
 HTML_VOID = {"area", "base", "br", "col", "embed", "hr", "img", "input", "link", "meta", "param", "source", "track", "wbr"}
@@ -364,12 +364,118 @@ def eof_sites(ctx: Ctx):
     return out
 
 
+def rule_tree(ctx: Ctx) -> RuleReport:
+    """A removed element changes the suppression state and nothing else: it never enters the tree / output and never becomes the
+    node that following text is attached to (that text would share the element's fate)."""
+    rep = RuleReport("C17-TREE", "in the start-tag handler the branch taken for removable elements writes only the suppression state (depth, name of the open removed element)")
+    for cls in _parsers(ctx):
+        hs, hd = cls.methods.get("handle_starttag"), cls.methods.get("handle_data")
+        if hs is None or hd is None:
+            raise AnalysisError(f"C17-TREE: {cls.name} lacks handle_starttag / handle_data")
+        rep.unit(hs.key)
+        guard = next((i for i in hd.node.body if isinstance(i, ast.If) and i.body and isinstance(i.body[-1], ast.Return)), None)
+        if guard is None:
+            raise AnalysisError(f"C17-TREE: {cls.name}.handle_data has no early return while suppressed")
+
+        def self_attrs(e):
+            return {a.attr for a in ast.walk(e) if isinstance(a, ast.Attribute) and isinstance(a.value, ast.Name) and a.value.id == "self"}
+
+        skip_attrs = set(self_attrs(guard.test))
+        gtxt = norm(guard.test)
+        for mth in cls.methods.values():
+            for i in walk_own(mth.node):
+                if isinstance(i, ast.If) and norm(i.test) == gtxt:
+                    for j in ast.walk(i):
+                        if isinstance(j, ast.If):
+                            skip_attrs |= self_attrs(j.test)
+        branches = []
+        for i in walk_own(hs.node):
+            if isinstance(i, ast.If) and isinstance(i.test, ast.Compare) and len(i.test.ops) == 1 and isinstance(i.test.ops[0], ast.In):
+                v = ctx.folder.fold(hs.module, i.test.comparators[0])
+                if isinstance(v, (set, frozenset, tuple, list)) and {"script", "noscript", "iframe"} <= set(v):
+                    branches.append(i)
+        if not branches:
+            raise AnalysisError(f"C17-TREE: {cls.name}.handle_starttag has no branch for the removable set")
+        for br in branches:
+            bad = None
+            for st in br.body:
+                for x in ast.walk(st):
+                    if isinstance(x, (ast.Assign, ast.AugAssign, ast.AnnAssign)):
+                        for t in (x.targets if isinstance(x, ast.Assign) else [x.target]):
+                            for a in ast.walk(t):
+                                if isinstance(a, ast.Attribute) and isinstance(a.value, ast.Name) and a.value.id == "self" and a.attr not in skip_attrs:
+                                    bad = bad or x
+                    elif isinstance(x, ast.Call) and isinstance(x.func, ast.Attribute) and x.func.attr in ("append", "extend", "insert", "pop", "update", "setdefault", "add", "remove", "clear") and self_attrs(x.func.value):
+                        bad = bad or x
+            if bad is None:
+                rep.ok({"parser": cls.name, "removable_branch_writes": sorted(skip_attrs)})
+            else:
+                rep.fail(Finding("C17-TREE", cls.module.rel, hs.qual, "removable branch: " + norm(bad)[:100], f"the branch of handle_starttag taken for removed elements does `{short(bad, 70)}`: a removed element enters the tree / becomes the node following text is attached to, so visible text after it shares its fate (dropped with the element) or its content reaches the output", line=bad.lineno))
+    return rep
+
+
+def rule_fresh(ctx: Ctx) -> RuleReport:
+    """Suppression state must not survive from one document to the next: every feed() goes to a parser created for that document,
+    or to one whose reset() re-initialises everything the handlers write."""
+    rep = RuleReport("C17-FRESH", "every html.parser subclass instance that is fed was created in the same call (fresh suppression state per document), or is reset by a reset() that re-initialises every attribute its handlers write")
+    parsers = {}
+    for m in ctx.p.modules.values():
+        for c in m.classes.values():
+            if any((dotted(b) or "").split(".")[-1] == "HTMLParser" for b in c.node.bases):
+                parsers[c.name] = c
+    n = 0
+    for m in ctx.p.modules.values():
+        if "/tests/" in m.rel:
+            continue
+        for fi in m.functions.values():
+            feeds = [c for c in calls_in(fi) if isinstance(c.func, ast.Attribute) and c.func.attr == "feed" and isinstance(c.func.value, ast.Name)]
+            if not feeds:
+                continue
+            fresh = {n_.targets[0].id for n_ in walk_own(fi.node) if isinstance(n_, ast.Assign) and len(n_.targets) == 1 and isinstance(n_.targets[0], ast.Name) and isinstance(n_.value, ast.Call) and (dotted(n_.value.func) or "").split(".")[-1] in parsers}
+            for c in feeds:
+                V = c.func.value.id
+                n += 1
+                rep.unit(fi.key)
+                if V in fresh:
+                    rep.ok({"site": f"{fi.qual}: {V}.feed(...)", "instance": "created in this call"})
+                    continue
+                # shared instance: which class? every parser class is a candidate; the weakest reset decides
+                resets = [x for x in calls_in(fi) if isinstance(x.func, ast.Attribute) and x.func.attr == "reset" and isinstance(x.func.value, ast.Name) and x.func.value.id == V]
+                problems = []
+                for cname, ci in parsers.items():
+                    written = set()
+                    for mname, mth in ci.methods.items():
+                        if mname.startswith("handle_") or mname in ("unknown_decl",):
+                            for a in ast.walk(mth.node):
+                                if isinstance(a, (ast.Assign, ast.AugAssign)):
+                                    for t in (a.targets if isinstance(a, ast.Assign) else [a.target]):
+                                        if isinstance(t, ast.Attribute) and isinstance(t.value, ast.Name) and t.value.id == "self":
+                                            written.add(t.attr)
+                    rs = ci.methods.get("reset")
+                    reinit = {t.attr for a in ast.walk(rs.node) if isinstance(a, (ast.Assign, ast.AnnAssign)) for t in (a.targets if isinstance(a, ast.Assign) else [a.target]) if isinstance(t, ast.Attribute) and isinstance(t.value, ast.Name) and t.value.id == "self"} if rs else set()
+                    scalar_state = {w for w in written if w not in reinit}
+                    if rs is not None and resets and not scalar_state:
+                        problems = []
+                        break
+                    problems.append((cname, sorted(scalar_state)))
+                if problems:
+                    cname, left = problems[0]
+                    rep.fail(Finding("C17-FRESH", m.rel, fi.qual, f"{V}.feed on a shared parser", f"`{short(c, 40)}` feeds a parser instance that was not created in this call" + (f" and whose reset() leaves {', '.join(left[:6])} as the previous document left them" if resets else " and is never reset") + ": a document that ends inside an unclosed removed element (<noscript>, <iframe>) leaves the suppression depth raised, and every following document extracts as empty text", line=c.lineno))
+                else:
+                    rep.ok({"site": f"{fi.qual}: {V}.feed(...)", "instance": "shared, fully reset"})
+    if n < 3:
+        raise AnalysisError(f"C17-FRESH: only {n} feed() sites found (3 confirmed)")
+    return rep
+
+
 def rule_eof(ctx: Ctx) -> RuleReport:
     """What html.parser still buffers at end of input: unterminated markup (comment, tag, script) must not become text."""
     rep = RuleReport("C17-EOF", "end of input: close() is never called on the html.parser subclasses (it hands unterminated comments/markup to handle_data as text); "
                      "the rest of the buffer is delivered only when it contains no '<'")
     sites = eof_sites(ctx)
-    if len(sites) < 3:
+    shared = [1 for m in ctx.p.modules.values() if "/tests/" not in m.rel for fi in m.functions.values() for c in calls_in(fi)
+              if isinstance(c.func, ast.Attribute) and c.func.attr == "feed" and isinstance(c.func.value, ast.Name)]
+    if len(sites) < 3 and len(shared) < 3:
         raise AnalysisError(f"C17-EOF: only {len(sites)} feed() sites found (3 confirmed: read_html, msg _html_to_text, EPUB chapter)")
     for rel, fi, V, close, kind, feed in sites:
         rep.unit(fi.key)
@@ -382,4 +488,4 @@ def rule_eof(ctx: Ctx) -> RuleReport:
     return rep
 
 
-RULES = [rule_skip, rule_n4, rule_n5, rule_eof]
+RULES = [rule_skip, rule_n4, rule_n5, rule_tree, rule_fresh, rule_eof]
